@@ -11,7 +11,11 @@ background job (`jobEv`: one F/D event of the stages task, any order the task al
 
 Quantifiers of every theorem: every plan `P` (any stages task — in particular the task of any
 layout the builder produces —, any list of thread-local systems), every sequence of
-`dispatch / running / wait / wait_without_tl / world / world_mut / setup` calls and **every
+`dispatch / running / wait / wait_without_tl / world / res / world_mut / mut_res / setup` calls
+— every public method of `AsyncDispatcher`, in every order, each one issued at every possible
+moment of the job: not yet started, a system inside `run`, between two stages, finished but
+not yet sent, sent long ago and never looked at (`quiet` marks that the environment has seen
+the systems' own completion signal without calling the dispatcher) — and **every
 interleaving** with the job (`Run` is closed under all enabled steps, so a system may stay
 inside `run` across arbitrarily many caller steps). `l = l1 ++ e :: l2` reads "at the moment
 event `e` is logged, the log so far is `l1`".
@@ -199,6 +203,50 @@ theorem each_at_most_once (h : Run P c l) (hnd : P.job.sys.Nodup) (d : Nat) (e :
     (projD d l).count e ≤ 1 :=
   inv_at_most_once (run_inv h) hnd d e
 
+/-- **C15 (a dispatch that finishes on its own).** When the environment sees the systems' own
+completion signal between two operations (`quiet`: no dispatcher method is involved), every
+dispatch issued so far has run to completion and nothing else has run … -/
+theorem quiet_quiescent (h : Run P c l) (hl : l = l1 ++ .quiet :: l2) : Quiescent P l1 (dispatches l1) := by
+  obtain ⟨c1, lb, c1', hr, hs⟩ := run_split h l1 _ l2 hl
+  have hi := run_inv hr
+  obtain ⟨hc, hq, _⟩ := step_quiet_cases hs
+  have hd := hi.disp
+  rw [hc] at hd
+  have := inv_quiescent_quiet hi hq
+  rw [hd] at this
+  simpa [spawnedBit] using this
+
+/-- … and looking does not touch the dispatcher: the control state (`Data`, the mailbox, the
+dispatch count) after the observation is the one before it. Whatever is called next —
+blocking or not, `world_mut` / `mut_res` / `setup` as well as `wait` / `world` / `running` —
+therefore finds the finished job's message exactly as if nobody had looked, and all of the
+above holds of every continuation: how (and whether) an earlier dispatch was observed never
+weakens what a later return guarantees. -/
+theorem quiet_stutters {lb : Lbl} {c' : Ctl} (hs : step P c lb = some (c', some .quiet)) : c' = c :=
+  (step_quiet_cases hs).2.2
+
+/-- **C15 (no lost wake-up).** A blocking operation (`Data::inner()`) of a reachable state is
+disabled only while the job has not sent (`Data::Rx`, job still `running`); and as soon as the
+job's residual is nullable — every system has finished — `send` and then the operation's
+`inner()` are enabled. So a call that stays blocked although every system has finished and the
+pool is idle is not a behaviour of the model. -/
+theorem blocked_only_while_running {op : AOp} (h : Run P c l) (hc : c.caller = .called op)
+    (h1 : op ≠ .running) :
+    (∃ c', step P c .acquire = some (c', none)) ∨
+    (∃ r, c.job = .running r ∧ c.data = .rx ∧
+      (r.nullable = true → ∃ c1 c2, step P c .send = some (c1, none) ∧ step P c1 .acquire = some (c2, none))) := by
+  have hdj := (run_inv h).data_job
+  obtain ⟨data, job, caller, n⟩ := c
+  simp only at hc hdj
+  subst hc
+  cases data <;> cases job <;> simp only [dataOk] at hdj
+  · left; simp [step, h1, available]
+  · right
+    rename_i r
+    refine ⟨r, rfl, rfl, fun hn => ?_⟩
+    simp [step, hn, h1, available]
+  · left; simp [step, h1, available]
+
 /-- the dispatcher `build_async` produces for a registration sequence (`Lemmas/Scenario.lean`:
 any list of registrations whose dependencies name earlier ones, any thread-local list) -/
 def ofScenario (sc : Scenario) : APlan := ⟨stagesTask sc.final.b.stages, sc.tl⟩
@@ -245,7 +293,15 @@ def log0 : List AEv :=
    sys worker 1 (.F 2), sys worker 1 (.D 2), sys worker 1 (.F 3), sys worker 1 (.D 3),
    call running, ret running true, call running, ret running false,
    call wait, tl caller (.F 4), tl caller (.D 4), ret wait false,
-   call worldMut, ret worldMut false, call waitWithoutTl, ret waitWithoutTl false, call setup, ret setup false]
+   call worldMut, ret worldMut false, call waitWithoutTl, ret waitWithoutTl false, call setup, ret setup false,
+   -- a third dispatch finishes on its own; it is first looked at by `mut_res`
+   call dispatch, ret dispatch false, sys worker 2 (.F 0), sys worker 2 (.F 1), sys worker 2 (.D 1),
+   sys worker 2 (.F 2), sys worker 2 (.D 2), sys worker 2 (.D 0), sys worker 2 (.F 3), sys worker 2 (.D 3),
+   quiet, call mutRes, ret mutRes false, quiet,
+   -- a fourth one is polled while system 0 is open, then `res` blocks until the end
+   call dispatch, ret dispatch false, sys worker 3 (.F 0), call running, ret running true, call res,
+   sys worker 3 (.F 1), sys worker 3 (.D 1), sys worker 3 (.F 2), sys worker 3 (.D 2), sys worker 3 (.D 0),
+   sys worker 3 (.F 3), sys worker 3 (.D 3), ret res false, quiet]
 
 example : acceptsLog P0 log0 = true := by decide
 example : ∃ c, Run P0 c log0 := accepted_is_run (by decide)
@@ -265,6 +321,22 @@ open AEv AOp Th in
 /-- refused: the second dispatch starts before the first is complete -/
 example : acceptsLog P0 [call dispatch, ret dispatch false, sys worker 0 (.F 0), call dispatch,
     sys worker 1 (.F 1)] = false := by decide
+open AEv AOp Th in
+/-- refused: the completion signal while system 0 is inside `run`, or inside an operation -/
+example : acceptsLog P0 [call dispatch, ret dispatch false, sys worker 0 (.F 0), quiet] = false ∧
+    acceptsLog P0 [call world, quiet] = false := by decide
+open AEv AOp Th in
+/-- refused: the first dispatch finishes on its own and is first looked at by `world_mut`
+(resp. `mut_res`, `setup`); the second is still running (system 0 open) when `wait`
+(resp. `res`, `running() = false`) returns -/
+example :
+    let pre (x : AOp) := [call dispatch, ret dispatch false, sys worker 0 (.F 0), sys worker 0 (.F 1),
+      sys worker 0 (.D 1), sys worker 0 (.F 2), sys worker 0 (.D 2), sys worker 0 (.D 0), sys worker 0 (.F 3),
+      sys worker 0 (.D 3), quiet, call x, ret x false, call dispatch, ret dispatch false, sys worker 1 (.F 0)]
+    acceptsLog P0 (pre worldMut ++ [call wait, ret wait false]) = false ∧
+    acceptsLog P0 (pre mutRes ++ [call res, ret res false]) = false ∧
+    acceptsLog P0 (pre setup ++ [call running, ret running false]) = false := by
+  decide
 open AEv AOp Th in
 /-- refused: a thread-local system outside `wait`, or on a worker -/
 example : acceptsLog ⟨.nil, [4]⟩ [call world, tl caller (.F 4)] = false ∧
@@ -288,3 +360,6 @@ end Shred
 #print axioms Shred.Async.each_at_most_once
 #print axioms Shred.Async.scenario_each_once
 #print axioms Shred.Async.accepted_is_run
+#print axioms Shred.Async.quiet_quiescent
+#print axioms Shred.Async.quiet_stutters
+#print axioms Shred.Async.blocked_only_while_running
